@@ -503,3 +503,50 @@ Proof.
     + destruct (IH (S vi) fs' reqs' e v post p ps k Hp H1 H2 Hk Hg) as [j [Hj [Hl Hu]]].
       exists j. split; [exact Hj|]. cbn [List.length]. lia.
 Qed.
+
+(* ---------------------------------------------------------------- idempotence (C08) *)
+(* a pool file already present with the declared size is never requested *)
+Lemma present_pool_file_not_requested swallow f u fs blocked v i :
+  check_size f = true -> variants f = [v] ->
+  lookup fs (vsource v) = Some i -> fsize i = dsize f ->
+  process_file swallow f u fs blocked = FPre 0.
+Proof.
+  intros Hc Hv Hl Hs. unfold process_file, precheck. rewrite Hc, Hv. cbn. rewrite Hl, Hs, N.eqb_refl. reflexivity.
+Qed.
+
+(* an index whose announced size and date equal the local file is not transferred:
+   the answer is accepted as "unmodified" and the file keeps its size and date *)
+Lemma unchanged_metadata_not_transferred f v p fs a d del ab i :
+  lookup fs p = Some i -> fmt i = Date d -> fsize i = a -> (a <> 0)%N ->
+  ((0 < vsize v)%N -> a = vsize v) ->
+  handle f v p fs (BOk (Some a) (Some d) del ab) = VDone true a (set_all fs (vpaths v) i).
+Proof.
+  intros Hl Hm Hs Ha Hv. unfold handle.
+  assert (Hp : positive_opt (Some a) = Some a).
+  { unfold positive_opt. destruct (N.eqb a 0) eqn:E; [apply N.eqb_eq in E; congruence|reflexivity]. }
+  rewrite Hp.
+  assert (E1 : N.ltb 0 (vsize v) && negb (N.eqb a (vsize v)) = false).
+  { destruct (N.ltb 0 (vsize v)) eqn:El; [|reflexivity]. apply N.ltb_lt in El. rewrite (Hv El), N.eqb_refl. reflexivity. }
+  rewrite E1.
+  assert (En : need_update fs p (Some a) (Some d) = false).
+  { unfold need_update. rewrite Hl, Hp, Hm, Hs. cbn. rewrite Z.eqb_refl, N.eqb_refl. reflexivity. }
+  rewrite En. cbn [negb]. rewrite Hl. reflexivity.
+Qed.
+
+(* a completed transfer that carried a Last-Modified date leaves every path of
+   the variant with exactly that date *)
+Lemma downloaded_carries_date f v p fs ann d del fs' sz :
+  handle f v p fs (BOk ann (Some d) del false) = VDone false sz fs' ->
+  forall q, In q (vpaths v) -> exists i, lookup fs' q = Some i /\ fmt i = Date d /\ fsize i = del.
+Proof.
+  unfold handle. intros H q Hq.
+  destruct (N.ltb 0 (vsize v) && match positive_opt ann with Some a => negb (N.eqb a (vsize v)) | None => false end);
+    [destruct (ignore_errors f); discriminate|].
+  destruct (positive_opt ann) as [a|].
+  - destruct (need_update fs p ann (Some d)); cbn [negb] in H.
+    + destruct (N.ltb 0 (vsize v) && negb (N.eqb (vsize v) del)); [discriminate|].
+      injection H as _ <-. eexists. rewrite lookup_set_all, (in_string_mem _ _ Hq). repeat split.
+    + destruct (lookup fs p); discriminate.
+  - destruct (N.ltb 0 (vsize v) && negb (N.eqb (vsize v) del)); [discriminate|].
+    injection H as _ <-. eexists. rewrite lookup_set_all, (in_string_mem _ _ Hq). repeat split.
+Qed.
